@@ -1,26 +1,1023 @@
-//! C03 - not built yet.
-use crate::engine::{PropertyInfo, RunCtx};
+//! C03 - a variable always holds a value of its declared type.
+//!
+//! Cases = `stgen` program (strict dial in the "clean" search, implicit dial in the "implicit"
+//! search) + the extension unit of `c03/ext.rs` + a history of direct input-image writes,
+//! debugger writes (with the value the control request handlers `set` / `var.force` /
+//! `io.write` construct), cycles and warm/cold restarts. Oracle: after compilation, after
+//! EVERY cycle and after every restart the whole storage is walked (`c03/decl.rs`) against the
+//! declared types known to the GENERATOR: value variant, subrange bounds, enum variants, string
+//! lengths, array dimensions, struct shapes, FB instance types.
+//!
+//! Open finding F8 (a write stores the value with the tag of the expression) is classified,
+//! never waved through: a foreign tag is only accepted at a location where the F8 model
+//! (`c03/taint.rs`, exact signatures in `c03/ext.rs`) predicts exactly that tag through a named
+//! write path, only after a cycle (never after compilation or a restart, where every value
+//! comes from the initialiser path), and is reported with `probe.known`.
+
+use std::collections::{BTreeMap, BTreeSet};
+use std::sync::atomic::{AtomicU64, Ordering};
+use std::sync::Mutex;
+
+use proptest::prelude::*;
+use proptest::strategy::ValueTree;
+use serde::{Deserialize, Serialize};
+use serde_json::json;
+
+use trust_runtime::io::IoAddress;
+use trust_runtime::memory::InstanceId;
+use trust_runtime::value::Value;
+use trust_runtime::RestartMode;
+
+use crate::engine::tape::{tape_strategy, Reader, Tape};
+use crate::engine::{catch, Probe, PropertyInfo, RunCtx};
+use crate::stgen::ast::*;
+use crate::stgen::print::{print_program, PrintOpts};
+use crate::stgen::rt::Real;
+use crate::stgen::{generate, GenConfig};
+
+#[path = "c03/decl.rs"]
+mod decl;
+#[path = "c03/ext.rs"]
+mod ext;
+#[path = "c03/handmade.rs"]
+mod handmade;
+#[path = "c03/taint.rs"]
+mod taint;
+
+use decl::{DTy, Layout, LocKey, VarSpec, What};
+use ext::{Allowed, Open};
 
 pub fn info() -> PropertyInfo {
     PropertyInfo {
         id: "C03",
         level: "exploration",
-        rule: "not built yet",
-        assumptions: &[],
-        workers_quick: 1,
-        workers_thorough: 1,
+        rule: "cases = stgen program (search 'clean': strict dial; search 'implicit': implicit dial with untyped literals, widening assignments, mixed-width operands) + generated extension PROGRAM XExt (AT-bound %I/%Q/%M variables of every I/O-capable type incl. subrange/alias/array/struct/FB-member/global bindings, untyped-literal initialisers of every elementary type, FOR loops over every integer type and over subrange/alias control variables with bounds of other types, FUNCTION/FB calls with VAR_INPUT/VAR_OUTPUT/VAR_IN_OUT of ten numeric types, subrange/alias/enum/STRING[n]/struct/array variables, RETAIN variables) x history of 1-6 steps (direct input-image writes with boundary bit patterns, debugger set/force/unforce with the value the control handlers construct, cycle, warm/cold restart); the storage-wide invariant is checked after compilation, after every cycle and after every restart; non-trivial = compiled, >= 1 cycle completed without fault, >= 10 storage leaves walked and >= 2 different write-path kinds exercised (initialiser, I/O latch of a written image value, FOR control, parameter binding, derived-type assignment, retain, restart, debugger write, implicit conversion); distinct by SHA-256 of (source, events)",
+        assumptions: &[
+            "declared types come from the generator (stgen AST / extension unit), never from the runtime's metadata; aliases are resolved by the generator",
+            "the value of a FOR control variable after its loop is implementer-specific; only its type tag (and, for the generated small ranges, the subrange) is asserted",
+            "VAR_IN_OUT parameters, VAR_TEMP and FUNCTION locals have no storage at a cycle boundary and are not walked; REAL/LREAL values latched from the input image may be any bit pattern (NaN/inf are not range violations)",
+            "debugger writes replicate control.rs parse_value (TRUE/FALSE -> BOOL, integer text -> LINT) and go through DebugControl::enqueue_global_write / force_global / force_instance / enqueue_io_write exactly as handle_set / handle_var_force / handle_io_write do",
+            "while finding F8 is open a foreign tag is accepted only at a location, with the tag and through the write path that the F8 model predicts for the generated program (static closure, superset: context-insensitive per POU type, array elements collapsed), only after a cycle; after compilation and after a restart (non-RETAIN) nothing is accepted",
+        ],
+        workers_quick: 8,
+        workers_thorough: 16,
         address_space_limit: 0,
-        watchdog_quick_s: 600,
-        watchdog_thorough_s: 3600,
+        watchdog_quick_s: 900,
+        watchdog_thorough_s: 7200,
         run,
     }
 }
 
+#[derive(Clone, Debug, PartialEq, Serialize, Deserialize)]
+pub enum Event {
+    /// Write into the input image (`TestHarness::set_direct_input`), or queue it through the
+    /// debugger (`io.write`, BOOL addresses only: the handler cannot build other values).
+    Io {
+        addr: String,
+        size: char,
+        raw: u64,
+        via_debug: bool,
+    },
+    /// Debugger write as a user issues it: op = set | force | unforce, `text` = typed value.
+    Dbg {
+        op: String,
+        path: Vec<String>,
+        var: String,
+        text: String,
+    },
+    Cycle {
+        writes: Vec<InputWrite>,
+        dt_ns: i64,
+    },
+    Restart {
+        warm: bool,
+    },
+}
+
+#[derive(Clone, Debug, Serialize, Deserialize)]
+pub struct Case {
+    #[serde(default)]
+    pub prog_tape: Option<Tape>,
+    #[serde(default)]
+    pub trace_tape: Option<Tape>,
+    #[serde(default)]
+    pub ext_tape: Option<Tape>,
+    #[serde(default)]
+    pub ev_tape: Option<Tape>,
+    #[serde(default)]
+    pub print_bits: u8,
+    /// "clean" | "implicit" | "handmade"
+    pub mode: String,
+    pub source: String,
+    pub layout: Layout,
+    #[serde(default)]
+    pub allowed: Vec<Allowed>,
+    pub events: Vec<Event>,
+    /// The stgen part (needed to apply enum-typed input writes).
+    #[serde(default)]
+    pub program: Option<Program>,
+    #[serde(default)]
+    pub excluded: Vec<String>,
+    #[serde(default)]
+    pub labels: Vec<String>,
+}
+
+static OPEN: Mutex<Option<Open>> = Mutex::new(None);
+
+fn open_now() -> Open {
+    OPEN.lock().unwrap().unwrap_or(Open {
+        f8_assign: true,
+        f8_arg: true,
+        f8_out: true,
+        f8_dbg: true,
+        derived_init: true,
+        enum_at: true,
+        str_len: true,
+        f25: true,
+    })
+}
+
+fn opts_of(bits: u8) -> PrintOpts {
+    PrintOpts {
+        full_parens: bits & 1 != 0,
+        ampersand: bits & 2 != 0,
+    }
+}
+
+fn finding_of_kind(kind: &str) -> &'static str {
+    match kind {
+        "fb-input-binding" | "argument-binding" | "parameter-default" | "in-out-binding" => {
+            ext::K_ARG
+        }
+        "output-binding" => ext::K_OUT,
+        "debugger-write" => ext::K_DBG,
+        _ => ext::K_ASSIGN,
+    }
+}
+
+fn raw_value(r: &mut Reader, size: char, range: Option<(i64, i64)>) -> u64 {
+    let bits = match size {
+        'X' => 1,
+        'B' => 8,
+        'W' => 16,
+        'D' => 32,
+        _ => 64,
+    };
+    let mask = if bits == 64 {
+        u64::MAX
+    } else {
+        (1u64 << bits) - 1
+    };
+    if let Some((lo, hi)) = range {
+        let v = r.range_i64(lo, hi);
+        return (v as u64) & mask;
+    }
+    let sign = 1u64 << (bits - 1);
+    match r.weighted(&[2, 2, 2, 2, 1, 4]) {
+        0 => 0,
+        1 => 1,
+        2 => mask,
+        3 => sign & mask,
+        4 => sign.wrapping_sub(1) & mask,
+        _ => r.u64() & mask,
+    }
+}
+
+/// Build a complete case from the tapes.
+pub fn materialize(
+    prog_tape: Tape,
+    trace_tape: Tape,
+    ext_tape: Tape,
+    ev_tape: Tape,
+    print_bits: u8,
+    mode: &str,
+) -> Case {
+    let implicit = mode == "implicit";
+    let open = open_now();
+    let cfg = if implicit {
+        // Untyped literals as arguments of standard functions (`USINT_TO_INT(253)`,
+        // `SEL(FALSE, 0, 1)` assigned to an unsigned variable, `ABS(0.46)` to a REAL) are
+        // rejected by the checker (E203/E205: the literal is typed without context), so the
+        // implicit dial runs without conversions and SEL/MIN/MAX/ABS.
+        let mut c = GenConfig::implicit_core();
+        c.features.conversions = false;
+        c.features.std_functions = false;
+        c
+    } else {
+        GenConfig::strict_core()
+    };
+    let g = generate(&prog_tape, &trace_tape, &cfg);
+    let printed = print_program(&g.program, opts_of(print_bits)).source;
+    let mut r = Reader::new(&ext_tape);
+    let has_conf = g.program.uses_configuration();
+    let own_globals = has_conf || r.chance(1, 2);
+    let x = ext::generate(&mut r, implicit, open, own_globals);
+
+    // ---- source text
+    let mut source = String::new();
+    source.push_str(&x.types);
+    source.push('\n');
+    let gblock = if x.globals_text.is_empty() {
+        String::new()
+    } else {
+        let mut s = String::from("  VAR_GLOBAL\n");
+        for l in &x.globals_text {
+            s.push_str(&format!("    {l}\n"));
+        }
+        s.push_str("  END_VAR\n");
+        s
+    };
+    if has_conf {
+        let marker = "CONFIGURATION Conf\n";
+        let at = printed.find(marker).unwrap_or(printed.len());
+        let (head, tail) = printed.split_at(at);
+        source.push_str(head);
+        source.push_str(&x.pous);
+        source.push('\n');
+        let tail = tail.replacen(marker, &format!("{marker}{gblock}"), 1);
+        let tail = tail.replacen(
+            "END_CONFIGURATION",
+            "  PROGRAM XExt : XExt;\nEND_CONFIGURATION",
+            1,
+        );
+        source.push_str(&tail);
+    } else {
+        source.push_str(&printed);
+        source.push_str(&x.pous);
+        source.push('\n');
+        if own_globals {
+            source.push_str("CONFIGURATION XConf\n");
+            source.push_str(&gblock);
+            source.push_str("  PROGRAM Main : Main;\n  PROGRAM XExt : XExt;\nEND_CONFIGURATION\n");
+        }
+    }
+
+    // ---- layout
+    let mut layout = decl::layout_of(&g.program);
+    layout.globals.extend(x.globals.iter().cloned());
+    layout.instances.push(("XExt".into(), "XExt".into()));
+    for (n, v) in &x.pou_vars {
+        layout.pous.insert(n.clone(), v.clone());
+    }
+
+    // ---- debugger targets
+    let mut targets = x.dbg.clone();
+    if let Some(m) = g.program.pou("Main") {
+        for v in &m.vars {
+            if v.kind == VarKind::Local && v.role == Role::Data && !v.constant {
+                if let Ty::Elem(e) = &v.ty {
+                    if e.is_num() || *e == Elem::Bool {
+                        targets.push(ext::DbgTarget {
+                            path: vec!["Main".into()],
+                            var: v.name.clone(),
+                            key: ("Main".into(), v.name.clone(), String::new()),
+                            ty: DTy::Elem(*e),
+                            sink: false,
+                        });
+                    }
+                }
+            }
+        }
+    }
+    for gv in &g.program.globals {
+        if let Ty::Elem(e) = &gv.ty {
+            if e.is_num() || *e == Elem::Bool {
+                targets.push(ext::DbgTarget {
+                    path: vec![],
+                    var: gv.name.clone(),
+                    key: (String::new(), gv.name.clone(), String::new()),
+                    ty: DTy::Elem(*e),
+                    sink: false,
+                });
+            }
+        }
+    }
+    let clean_target = |t: &ext::DbgTarget| {
+        matches!(t.ty, DTy::Elem(Elem::LInt) | DTy::Elem(Elem::Bool))
+    };
+    let mut excluded = x.excluded.clone();
+    for (what, n) in &g.excluded {
+        for _ in 0..(*n).min(2) {
+            excluded.push(what.clone());
+        }
+    }
+    if !(implicit && open.f8_dbg) {
+        targets.retain(|t| clean_target(t));
+        if open.f8_dbg {
+            excluded.push(format!(
+                "{} (clean mode: debugger writes only to LINT and BOOL variables)",
+                ext::K_DBG
+            ));
+        }
+    }
+
+    // ---- events (own tape: the history does not depend on how much the unit consumed)
+    let mut r = Reader::new(&ev_tape);
+    let mut events = Vec::new();
+    let mut allowed = x.allowed.clone();
+    let mut seeds: Vec<(LocKey, String)> = Vec::new();
+    let mut forced: Vec<(Vec<String>, String)> = Vec::new();
+    let n_steps = 1 + r.pick(6);
+    for k in 0..n_steps {
+        if !x.inputs.is_empty() {
+            for _ in 0..r.weighted(&[2, 3, 2, 1]) {
+                let i = &x.inputs[r.pick(x.inputs.len())];
+                let raw = raw_value(&mut r, i.size, i.range);
+                let via_debug = i.size == 'X' && r.chance(1, 4);
+                events.push(Event::Io {
+                    addr: i.addr.clone(),
+                    size: i.size,
+                    raw,
+                    via_debug,
+                });
+            }
+        }
+        if !targets.is_empty() {
+            let op = r.weighted(&[6, 2, 3, 1]);
+            if op == 3 {
+                if !forced.is_empty() {
+                    let (p, v) = forced.remove(r.pick(forced.len()));
+                    events.push(Event::Dbg {
+                        op: "unforce".into(),
+                        path: p,
+                        var: v,
+                        text: String::new(),
+                    });
+                }
+            } else if op > 0 {
+                let cands: Vec<&ext::DbgTarget> = if op == 1 {
+                    // the `set` request only takes global:<name>
+                    targets.iter().filter(|t| t.path.is_empty()).collect()
+                } else {
+                    targets.iter().collect()
+                };
+                if !cands.is_empty() {
+                    let t = cands[r.pick(cands.len())].clone();
+                    let text = if matches!(t.ty, DTy::Elem(Elem::Bool)) {
+                        if r.flag() { "TRUE" } else { "FALSE" }.to_string()
+                    } else {
+                        const NUMS: [i64; 12] = [
+                            0,
+                            1,
+                            5,
+                            -1,
+                            100,
+                            127,
+                            255,
+                            300,
+                            70000,
+                            -32768,
+                            1 << 40,
+                            i64::MAX,
+                        ];
+                        NUMS[r.pick(NUMS.len())].to_string()
+                    };
+                    if !clean_target(&t) {
+                        if t.sink {
+                            allowed.push(Allowed {
+                                key: t.key.clone(),
+                                tag: "LINT".into(),
+                                finding: ext::K_DBG.into(),
+                                retain: false,
+                            });
+                        } else {
+                            seeds.push((t.key.clone(), "LINT".into()));
+                        }
+                    }
+                    if op == 2 {
+                        forced.push((t.path.clone(), t.var.clone()));
+                    }
+                    events.push(Event::Dbg {
+                        op: if op == 1 { "set" } else { "force" }.into(),
+                        path: t.path.clone(),
+                        var: t.var.clone(),
+                        text,
+                    });
+                }
+            }
+        }
+        let (writes, dt_ns) = match g.trace.get(k) {
+            Some(c) => (c.writes.clone(), c.dt_ns),
+            None => (vec![], 1_000_000),
+        };
+        events.push(Event::Cycle { writes, dt_ns });
+        match r.weighted(&[7, 2, 2]) {
+            1 => events.push(Event::Restart { warm: true }),
+            2 => events.push(Event::Restart { warm: false }),
+            _ => {}
+        }
+    }
+
+    // ---- F8 closure of the stgen part (implicit dial and/or seeded by debugger writes)
+    if implicit || !seeds.is_empty() {
+        let extras = taint::closure(&g.program, &seeds);
+        for (key, m) in extras {
+            for (tag, kind) in m {
+                let finding = finding_of_kind(&kind);
+                let is_open = match finding {
+                    ext::K_ARG => open.f8_arg,
+                    ext::K_OUT => open.f8_out,
+                    ext::K_DBG => open.f8_dbg,
+                    _ => open.f8_assign,
+                };
+                if is_open {
+                    allowed.push(Allowed {
+                        key: key.clone(),
+                        tag,
+                        finding: finding.into(),
+                        retain: false,
+                    });
+                }
+            }
+        }
+    }
+
+    let mut labels = x.labels.clone();
+    labels.push(format!("conf={}", if has_conf { "stgen" } else if own_globals { "own" } else { "none" }));
+    Case {
+        prog_tape: Some(prog_tape),
+        trace_tape: Some(trace_tape),
+        ext_tape: Some(ext_tape),
+        ev_tape: Some(ev_tape),
+        print_bits,
+        mode: mode.to_string(),
+        source,
+        layout,
+        allowed,
+        events,
+        program: Some(g.program),
+        excluded,
+        labels,
+    }
+}
+
+static REJECTED: AtomicU64 = AtomicU64::new(0);
+static RAN: AtomicU64 = AtomicU64::new(0);
+static PANICS: Mutex<Vec<String>> = Mutex::new(Vec::new());
+static REJECT_SAMPLES: Mutex<Vec<String>> = Mutex::new(Vec::new());
+
+/// The value `control.rs::parse_value` builds from the text a user typed.
+fn parse_value_like_control(text: &str) -> Option<Value> {
+    let upper = text.trim().to_ascii_uppercase();
+    if upper == "TRUE" {
+        return Some(Value::Bool(true));
+    }
+    if upper == "FALSE" {
+        return Some(Value::Bool(false));
+    }
+    upper.parse::<i64>().ok().map(Value::LInt)
+}
+
+fn resolve_instance(real: &Real, path: &[String]) -> Option<InstanceId> {
+    let storage = real.harness.runtime().storage();
+    let mut it = path.iter();
+    let first = it.next()?;
+    let Some(Value::Instance(mut id)) = storage.get_global(first.as_str()).cloned() else {
+        return None;
+    };
+    for seg in it {
+        match storage.get_instance_var(id, seg.as_str()) {
+            Some(Value::Instance(n)) => id = *n,
+            _ => return None,
+        }
+    }
+    Some(id)
+}
+
+fn events_text(events: &[Event]) -> String {
+    let mut s = String::new();
+    for (i, e) in events.iter().enumerate() {
+        let line = match e {
+            Event::Io {
+                addr,
+                raw,
+                via_debug,
+                ..
+            } => format!(
+                "input image {addr} := {raw:#x}{}",
+                if *via_debug { " (io.write)" } else { "" }
+            ),
+            Event::Dbg {
+                op,
+                path,
+                var,
+                text,
+            } => format!(
+                "debugger {op} {}{var} {text}",
+                if path.is_empty() {
+                    "global:".to_string()
+                } else {
+                    format!("{}.", path.join("."))
+                }
+            ),
+            Event::Cycle { writes, dt_ns } => format!(
+                "cycle (dt {dt_ns} ns, {} variable write(s): {})",
+                writes.len(),
+                writes
+                    .iter()
+                    .map(|w| format!("{}.{}:={}", w.instance, w.var, w.value.show()))
+                    .collect::<Vec<_>>()
+                    .join(", ")
+            ),
+            Event::Restart { warm } => {
+                format!("restart {}", if *warm { "warm" } else { "cold" })
+            }
+        };
+        s.push_str(&format!("  [{i}] {line}\n"));
+    }
+    s
+}
+
+#[derive(Clone, Copy, PartialEq)]
+enum Phase {
+    /// After compilation / after a cold restart: every value comes from an initialiser.
+    Strict,
+    /// After a warm restart: only RETAIN locations may still carry what they had.
+    Warm,
+    /// After a cycle.
+    Cycle,
+}
+
+struct Outcome {
+    leaves: usize,
+    known: BTreeSet<String>,
+    labels: Vec<String>,
+}
+
+fn check_storage(
+    real: &Real,
+    case: &Case,
+    allowed: &BTreeMap<(LocKey, String), (String, bool)>,
+    phase: Phase,
+    at: &str,
+    out: &mut Outcome,
+) -> Result<(), String> {
+    let (mism, leaves) = decl::walk(real.harness.runtime().storage(), &case.layout);
+    out.leaves = out.leaves.max(leaves);
+    let mut bad = Vec::new();
+    for m in mism {
+        if m.what == What::Tag {
+            if let Some((finding, retain)) = allowed.get(&(m.key.clone(), m.stored.clone())) {
+                let ok = match phase {
+                    Phase::Cycle => true,
+                    Phase::Warm => *retain,
+                    Phase::Strict => false,
+                };
+                if ok {
+                    out.known.insert(finding.clone());
+                    out.labels
+                        .push(format!("known:{}:{}<-{}", finding, m.want, m.stored));
+                    continue;
+                }
+            }
+        }
+        bad.push(m);
+    }
+    if bad.is_empty() {
+        return Ok(());
+    }
+    let n = bad.len();
+    let lines: Vec<String> = bad.iter().take(8).map(|m| m.show()).collect();
+    Err(format!(
+        "{at}: {n} storage location(s) violate the declared type\n  {}\n--- events\n{}--- source\n{}",
+        lines.join("\n  "),
+        events_text(&case.events),
+        case.source
+    ))
+}
+
+fn check_case(case: &Case, probe: &mut Probe) -> Result<(), String> {
+    for e in &case.excluded {
+        probe.excluded(e.clone());
+    }
+    probe.label(format!("mode={}", case.mode));
+    let mut real = match catch(|| Real::compile(&case.source)) {
+        Ok(Ok(r)) => r,
+        Ok(Err(e)) => {
+            REJECTED.fetch_add(1, Ordering::Relaxed);
+            let first: String = e
+                .lines()
+                .next()
+                .unwrap_or("")
+                .split(" (at ")
+                .next()
+                .unwrap_or("")
+                .chars()
+                .take(80)
+                .collect();
+            probe.label(format!("rejected:{first}"));
+            let mut s = REJECT_SAMPLES.lock().unwrap();
+            if s.len() < 3 {
+                s.push(format!("{e}\n{}", case.source));
+            }
+            if let Ok(dir) = std::env::var("C03_DEBUG_DIR") {
+                let name = format!(
+                    "{dir}/rej-{:016x}.st",
+                    crate::engine::digest64(case.source.as_bytes())
+                );
+                let _ = std::fs::write(name, format!("(* {e} *)\n{}", case.source));
+            }
+            return Ok(());
+        }
+        Err(p) => {
+            PANICS.lock().unwrap().push(format!("compiler: {p}"));
+            probe.label("compiler_panic");
+            return Ok(());
+        }
+    };
+    RAN.fetch_add(1, Ordering::Relaxed);
+    let mut allowed: BTreeMap<(LocKey, String), (String, bool)> = BTreeMap::new();
+    for a in &case.allowed {
+        allowed
+            .entry((a.key.clone(), a.tag.clone()))
+            .or_insert((a.finding.clone(), a.retain));
+    }
+    let empty_prog = Program {
+        types: vec![],
+        pous: vec![],
+        globals: vec![],
+        instances: vec![],
+    };
+    let prog = case.program.as_ref().unwrap_or(&empty_prog);
+    let mut out = Outcome {
+        leaves: 0,
+        known: BTreeSet::new(),
+        labels: Vec::new(),
+    };
+    let mut kinds: BTreeSet<&'static str> = BTreeSet::new();
+    for l in &case.labels {
+        probe.label(l.clone());
+        if l.starts_with("init:") {
+            kinds.insert("initialiser");
+        } else if l.starts_with("for:") {
+            kinds.insert("for");
+        } else if l.starts_with("params:") {
+            kinds.insert("parameter");
+        } else if l.starts_with("derived") {
+            kinds.insert("derived");
+        } else if l.starts_with("retain") {
+            kinds.insert("retain");
+        } else if l.starts_with("f8:") {
+            kinds.insert("implicit");
+        }
+    }
+    if case.mode == "implicit" {
+        kinds.insert("implicit");
+    }
+    let debug = real.harness.runtime_mut().enable_debug();
+    check_storage(
+        &real,
+        case,
+        &allowed,
+        Phase::Strict,
+        "after compilation (before the first cycle)",
+        &mut out,
+    )?;
+    let mut good_cycles = 0u32;
+    let mut cycles = 0u32;
+    let mut io_written = false;
+    for (i, ev) in case.events.iter().enumerate() {
+        match ev {
+            Event::Io {
+                addr,
+                size,
+                raw,
+                via_debug,
+            } => {
+                let value = match size {
+                    'X' => Value::Bool(*raw & 1 == 1),
+                    'B' => Value::Byte(*raw as u8),
+                    'W' => Value::Word(*raw as u16),
+                    'D' => Value::DWord(*raw as u32),
+                    _ => Value::LWord(*raw),
+                };
+                if *via_debug {
+                    if let Ok(a) = IoAddress::parse(addr) {
+                        debug.enqueue_io_write(a, value);
+                    }
+                } else {
+                    real.harness
+                        .set_direct_input(addr, value)
+                        .map_err(|e| format!("infrastructure: cannot write {addr}: {e:?}"))?;
+                }
+                io_written = true;
+            }
+            Event::Dbg {
+                op,
+                path,
+                var,
+                text,
+            } => {
+                kinds.insert("debugger");
+                probe.label(format!("dbg:{op}"));
+                if op == "unforce" {
+                    if path.is_empty() {
+                        debug.release_global(var);
+                    } else if let Some(id) = resolve_instance(&real, path) {
+                        debug.release_instance(id, var);
+                    }
+                    continue;
+                }
+                let Some(value) = parse_value_like_control(text) else {
+                    continue;
+                };
+                match (op.as_str(), path.is_empty()) {
+                    ("set", true) => debug.enqueue_global_write(var.as_str(), value),
+                    ("force", true) => debug.force_global(var.as_str(), value),
+                    ("force", false) => {
+                        if let Some(id) = resolve_instance(&real, path) {
+                            debug.force_instance(id, var.as_str(), value);
+                        }
+                    }
+                    _ => {}
+                }
+            }
+            Event::Cycle { writes, dt_ns } => {
+                let input = CycleInput {
+                    writes: writes.clone(),
+                    dt_ns: *dt_ns,
+                };
+                real.apply(prog, &input)
+                    .map_err(|e| format!("infrastructure: cannot apply inputs: {e}"))?;
+                cycles += 1;
+                match catch(|| real.cycle(5_000)) {
+                    Ok(None) => {
+                        good_cycles += 1;
+                        if io_written {
+                            kinds.insert("io-latch");
+                        }
+                    }
+                    Ok(Some(f)) => {
+                        let name = match f {
+                            crate::stgen::rt::RealFault::Kind(k) => k.name().to_string(),
+                            crate::stgen::rt::RealFault::Other(o) => {
+                                o.chars().take(40).collect::<String>()
+                            }
+                        };
+                        probe.label(format!("fault={name}"));
+                    }
+                    Err(p) => {
+                        PANICS.lock().unwrap().push(format!("cycle: {p}"));
+                        probe.label("runtime_panic");
+                    }
+                }
+                check_storage(
+                    &real,
+                    case,
+                    &allowed,
+                    Phase::Cycle,
+                    &format!("after event [{i}] (cycle {cycles})"),
+                    &mut out,
+                )?;
+            }
+            Event::Restart { warm } => {
+                kinds.insert("restart");
+                probe.label(if *warm { "restart:warm" } else { "restart:cold" });
+                let mode = if *warm {
+                    RestartMode::Warm
+                } else {
+                    RestartMode::Cold
+                };
+                match catch(|| real.harness.restart(mode)) {
+                    Ok(Ok(())) => {}
+                    Ok(Err(e)) => {
+                        probe.label(format!("restart_error:{e:?}"));
+                    }
+                    Err(p) => {
+                        PANICS.lock().unwrap().push(format!("restart: {p}"));
+                        probe.label("runtime_panic");
+                    }
+                }
+                check_storage(
+                    &real,
+                    case,
+                    &allowed,
+                    if *warm { Phase::Warm } else { Phase::Strict },
+                    &format!(
+                        "after event [{i}] (restart {})",
+                        if *warm { "warm" } else { "cold" }
+                    ),
+                    &mut out,
+                )?;
+            }
+        }
+    }
+    for l in &out.labels {
+        probe.label(l.clone());
+    }
+    for k in &out.known {
+        probe.known(k.clone());
+    }
+    probe.label(format!("cycles={cycles}"));
+    probe.label(format!("leaves={}", (out.leaves / 25) * 25));
+    for k in &kinds {
+        probe.label(format!("path:{k}"));
+    }
+    if good_cycles >= 1 && out.leaves >= 10 && kinds.len() >= 2 {
+        let mut key = case.source.as_bytes().to_vec();
+        key.extend_from_slice(
+            serde_json::to_string(&case.events)
+                .unwrap_or_default()
+                .as_bytes(),
+        );
+        probe.nontrivial(&key);
+        if out.leaves > 40 {
+            probe.sample(json!({
+                "mode": case.mode,
+                "source": case.source,
+                "events": events_text(&case.events),
+                "leaves_walked": out.leaves,
+                "known_findings_observed": out.known,
+            }));
+        }
+    }
+    Ok(())
+}
+
+pub fn case_strategy(mode: &'static str) -> impl Strategy<Value = Case> {
+    (
+        tape_strategy(700),
+        tape_strategy(60),
+        tape_strategy(160),
+        tape_strategy(90),
+        0u8..8,
+    )
+        .prop_map(move |(p, t, x, ev, bits)| {
+            let print_bits = match bits {
+                0 => 1,
+                1 => 2,
+                2 => 3,
+                _ => 0,
+            };
+            materialize(p, t, x, ev, print_bits, mode)
+        })
+}
+
 /// Helper subcommands (child processes of this check); None = not mine.
-pub fn helper(_args: &[String]) -> Option<i32> {
-    None
+pub fn helper(args: &[String]) -> Option<i32> {
+    match args.first().map(|s| s.as_str()) {
+        Some("c03-probe") => {
+            // tpv c03-probe <file.st> [cycles] [addr=raw ...]: run a source, dump storage tags
+            let path = args.get(1)?;
+            let cycles: usize = args.get(2).and_then(|s| s.parse().ok()).unwrap_or(1);
+            let src = std::fs::read_to_string(path).ok()?;
+            match Real::compile(&src) {
+                Err(e) => {
+                    println!("COMPILE ERROR: {e}");
+                    Some(1)
+                }
+                Ok(mut real) => {
+                    for w in args.iter().skip(3) {
+                        if let Some((a, v)) = w.split_once('=') {
+                            let raw: u64 = v.parse().unwrap_or(0);
+                            let val = match a.as_bytes().get(2) {
+                                Some(b'X') => Value::Bool(raw & 1 == 1),
+                                Some(b'B') => Value::Byte(raw as u8),
+                                Some(b'W') => Value::Word(raw as u16),
+                                Some(b'D') => Value::DWord(raw as u32),
+                                _ => Value::LWord(raw),
+                            };
+                            println!("write {a} {val:?}: {:?}", real.harness.set_direct_input(a, val.clone()));
+                        }
+                    }
+                    let dump = |real: &Real| {
+                        let st = real.harness.runtime().storage();
+                        for (n, v) in st.globals() {
+                            match v {
+                                Value::Instance(id) => {
+                                    if let Some(inst) = st.get_instance(*id) {
+                                        for (vn, vv) in &inst.variables {
+                                            println!("   {n}.{vn} = {vv:?}");
+                                        }
+                                    }
+                                }
+                                other => println!("   G.{n} = {other:?}"),
+                            }
+                        }
+                    };
+                    println!("t0:");
+                    dump(&real);
+                    for c in 0..cycles {
+                        let f = catch(|| real.cycle(2000));
+                        println!("cycle {c}: fault={f:?}");
+                        dump(&real);
+                    }
+                    Some(0)
+                }
+            }
+        }
+        Some("c03-gen") => {
+            // tpv c03-gen <seed> [n] [clean|implicit]
+            let seed: u64 = args.get(1).and_then(|s| s.parse().ok()).unwrap_or(1);
+            let n: usize = args.get(2).and_then(|s| s.parse().ok()).unwrap_or(1);
+            let mode: &'static str = if args.get(3).map(|s| s.as_str()) == Some("implicit") {
+                "implicit"
+            } else {
+                "clean"
+            };
+            let quiet = args.get(4).map(|s| s.as_str()) == Some("quiet");
+            let mut runner = proptest::test_runner::TestRunner::new_with_rng(
+                proptest::test_runner::Config::default(),
+                proptest::test_runner::TestRng::from_seed(
+                    proptest::test_runner::RngAlgorithm::ChaCha,
+                    &{
+                        let mut s = [0u8; 32];
+                        s[..8].copy_from_slice(&seed.to_le_bytes());
+                        s
+                    },
+                ),
+            );
+            let strat = case_strategy(mode);
+            let mut fails = 0;
+            for _ in 0..n {
+                let c = strat.new_tree(&mut runner).ok()?.current();
+                let mut probe = Probe::default();
+                let res = check_case(&c, &mut probe);
+                if !quiet {
+                    println!("{}", c.source);
+                    println!("(* events\n{}*)", events_text(&c.events));
+                    println!("(* allowed {:?} *)", c.allowed);
+                }
+                match res {
+                    Ok(()) => {
+                        if !quiet {
+                            println!("(* verdict: ok; labels {:?} *)", probe.labels)
+                        } else if probe.labels.iter().any(|l| l.starts_with("rejected")) {
+                            println!("REJECTED {:?}", probe.labels.iter().find(|l| l.starts_with("rejected")));
+                        }
+                    }
+                    Err(e) => {
+                        fails += 1;
+                        println!(
+                            "(* verdict: FAIL {} *)",
+                            e.lines().take(12).collect::<Vec<_>>().join("\n")
+                        )
+                    }
+                }
+            }
+            for s in REJECT_SAMPLES.lock().unwrap().iter() {
+                println!("(* REJECT SAMPLE: {} *)", s.lines().take(200).collect::<Vec<_>>().join("\n"));
+            }
+            println!("(* {fails} failing of {n}; rejected {} *)", REJECTED.load(Ordering::Relaxed));
+            Some(0)
+        }
+        Some("c03-mkreplays") => Some(handmade::write_replays(args.get(1).map(|s| s.as_str()))),
+        _ => None,
+    }
 }
 
 fn run(ctx: &mut RunCtx) {
-    ctx.inconclusive("check not built yet");
+    let open = Open {
+        f8_assign: ctx.is_open(ext::K_ASSIGN),
+        f8_arg: ctx.is_open(ext::K_ARG),
+        f8_out: ctx.is_open(ext::K_OUT),
+        f8_dbg: ctx.is_open(ext::K_DBG),
+        derived_init: ctx.is_open(ext::K_DINIT),
+        enum_at: ctx.is_open(ext::K_ENUM_AT),
+        str_len: ctx.is_open(ext::K_STRLEN),
+        f25: ctx.is_open(ext::K_F25_ASSIGN) || ctx.is_open(ext::K_F25_IO),
+    };
+    *OPEN.lock().unwrap() = Some(open);
+    let tier = ctx.tier;
+    // handmade reproducers and regression inputs
+    ctx.search("handmade", case_strategy("clean"), 0, check_case);
+    ctx.search(
+        "clean",
+        case_strategy("clean"),
+        tier.pick(3_600, 120_000),
+        check_case,
+    );
+    ctx.search(
+        "implicit",
+        case_strategy("implicit"),
+        tier.pick(2_400, 80_000),
+        check_case,
+    );
+    let ran = RAN.load(Ordering::Relaxed);
+    let rejected = REJECTED.load(Ordering::Relaxed);
+    if ctx.only_replay.is_none() && rejected * 50 > (ran + rejected).max(1) {
+        let sample = REJECT_SAMPLES
+            .lock()
+            .unwrap()
+            .first()
+            .map(|s| s.lines().take(2).collect::<Vec<_>>().join(" | "))
+            .unwrap_or_default();
+        ctx.inconclusive(format!(
+            "{rejected} of {} generated programs were rejected by the compiler (> 2 %): the generator no longer matches the accepted language; first: {sample}",
+            ran + rejected
+        ));
+    }
+    let panics = PANICS.lock().unwrap().clone();
+    if !panics.is_empty() {
+        ctx.note(format!(
+            "{} panic(s) inside compiler/cycle/restart were observed and not judged by this property (C01's subject); first: {}",
+            panics.len(),
+            panics[0]
+        ));
+    }
+    let _ = VarSpec {
+        name: String::new(),
+        ty: DTy::Bits(8),
+        retain: false,
+    };
 }
